@@ -118,7 +118,7 @@ def run_docs(ex, schemas, load, cfg, docs, mode='err', reuse=0):
     if reuse: req['reuse'] = reuse
     for k, v in schemas.items(): req['ent:' + k] = v.encode('utf-8')
     for i, d in enumerate(docs): req['doc%d' % i] = d.encode('utf-8')
-    return parse_xsd_resp(ex.request(req, timeout=600))
+    return parse_xsd_resp(ex.request(req, timeout=150))
 
 def run_hint(ex, schemas, cfg, doc):
     """schema reached through the xsi:(noNamespace)schemaLocation hint written in the document"""
@@ -572,6 +572,12 @@ def worker(ctx):
                 fid = known_crash(e.stderr)
                 if fid:
                     ctx.stats.excluded_known[fid] += 1; return
+                if e.rc in (-9, None) and 'Sanitizer' not in (e.stderr or ''):
+                    # request watchdog (no sanitizer report): never a verdict (R5); the schema is kept in the evidence for a look
+                    ctx.stats.inconclusive += 1
+                    w = ctx.stats.extra.setdefault('watchdog_cases', [])
+                    if len(w) < 3: w.append({'lane': name, 'schema': xm.render_schema(c[0]).get('s.xsd', '')[:3000], 'cfg': c[1] if isinstance(c[1], dict) else str(c[2])})
+                    return
                 s = c[0]; cfg = dict(c[1]) if isinstance(c[1], dict) else {'api': 'sax2', 'scanner': c[2], 'fullcheck': 1, 'route': 'cached'}
                 cfg['fullcheck'] = 1
                 raise PropertyFailure({'lane': 'load', 'died_in': name, 'schemas': xm.render_schema(s), 'load': [s.sysid], 'cfg': cfg, 'expect_load_errors': False},
